@@ -113,7 +113,7 @@ def main():
             raise MachineryError('replay of a TLC behaviour: re-run the check (behaviours are re-enumerated deterministically)')
         mc = tlc.run_tlc('MC_SpinePaths', 'MC_SpinePaths_q5.cfg', workers=16, timeout=1200)
         run.add_tlc(mc)
-        docs.validate_sessions(run, [s])
+        docs.validate_sessions(run, [s], relevant=docs.relevant_for(run.pid))
         return run.finish()
     import concurrent.futures as cf
     with cf.ThreadPoolExecutor(2) as ex:
@@ -145,7 +145,7 @@ def main():
     nrand = 400 if quick else 6000
     sess += docs.build_sessions(random_layout, [a.seed * 100003 + i for i in range(nrand)], tier=a.tier)
     docs.selftest_session(next(s for s in sess if 'split' in (s.get('tags') or []) or len(s['log']) > 6))
-    docs.validate_sessions(run, sess)
+    docs.validate_sessions(run, sess, relevant=docs.relevant_for(run.pid))
     run.evaluations = len(sess)
     for s in sess:
         ops = {c['k'] for e in s['log'] if e['ev'] in ('row', 'surplus') for c in e['cells']} & {'split', 'join'}
